@@ -4,12 +4,30 @@
 # usage: tools/pure_keys.sh [seed] [n-random-per-function]
 # exit 0 iff the two outputs are identical; prints the number of cases, and the first
 # differences otherwise. Builds everything it needs from the files on disk.
+# The harness run also carries the key monitor (harness/mon_keys.go: collision and scan-exactness
+# search on the real functions alone); its summary is build/purekeys.keymon.json and the line
+# "KEYMON ..." below. It runs first, so that it has run whatever becomes of the model side.
 set -e
 cd "$(dirname "$0")/.."
 export GOFLAGS=-mod=mod GOPROXY=off GOSUMDB=off GOTOOLCHAIN=local
 seed=${1:-1}
 n=${2:-300}
 mkdir -p build
+rm -f build/purekeys.keymon.json build/purekeys.impl
+
+# 0. the harness against /repo's working tree: the stream of the real functions + the key monitor
+tools/build.sh harness >/dev/null || { echo "PUREKEYS FAIL: harness build"; exit 1; }
+./harness/harness -mode purekeys -seed "$seed" -n "$n" -out build/purekeys.impl -summary build/purekeys.keymon.json > build/purekeys.harness.log \
+  || { tail -5 build/purekeys.harness.log; echo "PUREKEYS FAIL: harness run"; exit 1; }
+python3 - <<'PY' || true
+import json
+k = (json.load(open("build/purekeys.keymon.json")).get("keymon") or {})
+print("KEYMON findings=%d key_calls=%d subspace_calls=%d collision_comparisons=%d scan_comparisons=%d completeness=%d per_kind=%s" % (
+    k.get("n_findings", -1), k.get("key_calls", 0), k.get("subspace_calls", 0), k.get("collision_comparisons", 0),
+    k.get("scan_comparisons", 0), k.get("scan_completeness_checks", 0), json.dumps(k.get("findings_per_kind") or {}, sort_keys=True)))
+for f in (k.get("findings") or [])[:3]:
+    print("KEYMON %s [%s] %s" % (f["kind"], f["theorem"], f["detail"][:400]))
+PY
 
 # 1. regenerate KeysGen.v from the source (translation failure = broken obligation K-translate)
 tools/build.sh translator >/dev/null || echo "PUREKEYS NOTE: translator failed (K-translate); comparing the real functions with the committed generated model" 
@@ -27,11 +45,7 @@ cp coq/Extract/keys.ml coq/Extract/keys.mli ocaml/keys_driver.ml build/
    | grep -v "^$" | grep -v "options -O3 is only relevant" || true)
 test -x build/keys_driver || { echo "PUREKEYS FAIL: ocaml build"; exit 1; }
 
-# 3. the harness against /repo's working tree
-tools/build.sh harness >/dev/null || { echo "PUREKEYS FAIL: harness build"; exit 1; }
-
-# 4. run both, compare
-./harness/harness -mode purekeys -seed "$seed" -n "$n" -out build/purekeys.impl > build/purekeys.harness.log
+# 3. the model side on the same cases, compare
 ./build/keys_driver < build/purekeys.impl > build/purekeys.model 2> build/purekeys.driver.log \
   || { cat build/purekeys.driver.log; echo "PUREKEYS FAIL: model driver aborted"; exit 1; }
 cases=$(grep -c '^K ' build/purekeys.impl || true)
